@@ -12,6 +12,10 @@ CHECKS = {
    text="Model-based history checking of the real TaskQueue against a sorted-list reference (add, re-add, remove, pop, peek smallest/largest, empty, clear, iteration; ties, +-inf, identity/equality-keyed tasks), plus shadow monitors that mirror every live queue (clock queues, NRT ClockScheduler, OscScore) inside simulated RT runs with concurrent schedulers and inside NRT runs. Exploration, not proof.",
    note="Direct histories involve no scheduler (stated in the evidence); which of several entries sharing the largest time peek(False) returns is treated as unspecified.",
    tech="deterministic simulation harness: tape-generated operation histories and shadow monitors in simulated runs vs reference model"),
+ 'C12': dict(
+   text="Generated programs of routines that read and change tempo, beats and meter of 1-3 TempoClocks (tempo changes landing while the clock thread sleeps), query next_time_on_grid/next_bar/bar/beat_in_bar/conversions and play children with quants, run by real sc3 in RT fault-free, RT under seeded faults and NRT; round-trip, continuity, congruence/earliest, bar and meter laws at every query/change, beats-advance and quantised child start from the execution trace, whole trace vs affine-map model for programs without map changes. Exploration, not proof.",
+   note="Reference points within 1e-7 of a grid point are accepted on either side; what a map change does to pending wake-ups is left to C10.",
+   tech="deterministic simulation with fault injection (histories of tempo/beats/meter changes from routines on simulated clocks; law checks + reference model)"),
  'C16': dict(
    text="Model-based history checking of the real bus/buffer/node-id allocators of a Server configured per case (sizes, reserved offsets, max_logins, client id -> real partition arithmetic) against an interval-set reference: safety (inside partition, no overlap), completeness ('no space' only when no free run exists), misuse tolerance (double free, free(None), unknown address), cross-client disjointness by exhaustion, node-id window/wrap-around; the allocator's random tie-break is a tape draw. Exploration, not proof.",
    note="No scheduler involved (stated in the evidence); node-id wrap-around reached by setting the counter near the top of the window.",
